@@ -15,7 +15,7 @@ from checks.fmt_common import *
 
 LEVEL = "proof"
 THEOREMS = ["anchors_sorted", "anchor_true_partial", "anchor_true_no_truncation", "anchors_one_based", "add_shift",
-            "add_shift_needs_side_condition", "entries_sorted"]
+            "add_shift_needs_side_condition", "entries_sorted", "entries_complete", "add_injective"]
 ALL_OK = "dst=ok src=ok sorted=ok cover=ok anchors=ok"
 KEY_BLANK = "render:blank-anchor-past-eol-after-trailing-space-removal"
 
